@@ -161,7 +161,11 @@ func (f *Func) AssignIDs() error {
 				got := n.ID()
 				return errors.Errorf("invalid local ID in function %q, expected %s, got %s", f.Ident(), enc.LocalID(want), enc.LocalID(got))
 			}
-			n.SetID(id)
+			// Note, the ID is only written when it changes; other goroutines may
+			// be printing (and thus reading the ID of) an already numbered value.
+			if n.ID() != id {
+				n.SetID(id)
+			}
 			id++
 		}
 		return nil
